@@ -150,6 +150,35 @@ def align(case):
         inline.create_layout = saved
 
 
+def ibw(case):
+    """inline_block_width (the function under @handle_min_max_width) on a stub box with Fraction fields; shrink_to_fit
+    answers min(max(pmin, available), pref).  case: dict(width 'auto' | str(Fraction), cbw, sp=[ml, mr, bl, br, pl, pr],
+    pmin, pref).  Returns [str(width left in the box), the other attributes unchanged?]"""
+    from weasyprint.layout import inline
+
+    class Stub:
+        pass
+    pmin, pref = Fraction(case['pmin']), Fraction(case['pref'])
+    saved = inline.shrink_to_fit
+    inline.shrink_to_fit = lambda context, box, available: min(max(pmin, available), pref)
+    try:
+        box, cb = Stub(), Stub()
+        names = ['margin_left', 'margin_right', 'border_left_width', 'border_right_width', 'padding_left',
+                 'padding_right']
+        for n_, v in zip(names, case['sp']):
+            setattr(box, n_, Fraction(v))
+        box.width = 'auto' if case['width'] == 'auto' else Fraction(case['width'])
+        cb.width = Fraction(case['cbw'])
+        before = dict(vars(box))
+        r = inline.inline_block_width.without_min_max(box, None, cb)
+        after = dict(vars(box))
+        same = r is None and cb.width == Fraction(case['cbw']) and all(
+            after[k] == before[k] for k in before if k != 'width') and set(after) == set(before)
+        return [str(Fraction(box.width)), bool(same)]
+    finally:
+        inline.shrink_to_fit = saved
+
+
 # ------------------------------------------------------------------------------------------ full renders
 
 def _text_of(box):
